@@ -47,7 +47,7 @@ def lit(v):
     if v is False:
         return 'false'
     if is_number(v):
-        return str(int(v)) if v >= 0 and v == int(v) else ('(0 - %s)' % repr(abs(v)).rstrip('0').rstrip('.') if v < 0 else repr(v))
+        return str(int(v)) if v >= 0 and v == int(v) else ('(0 - %s)' % (repr(abs(v))[:-2] if repr(abs(v)).endswith('.0') else repr(abs(v))) if v < 0 else repr(v))
     return ge.quote_single(v)
 
 
@@ -220,6 +220,8 @@ class Machine(RuleBasedStateMachine):
             v = float(rnd.choice([rnd.randint(-2, length + 2), rnd.randint(0, max(0, length - 1)), rnd.randint(0, max(0, length - 1)), length, 0]))
             if rnd.random() < 0.05:
                 v = v + 0.5
+            elif rnd.random() < 0.05:
+                v = v + rnd.choice([1e-10, -1e-10, 1e-9, 1e-12])       # a hair off an integer is not an integer
             return lit(v), v
         if spec_type == 'code':
             v = float(rnd.choice([65, 97, 0x1F600, 0x20, 0xe9, 0x10FFFF, 0x110000, -1, 66.5]))
